@@ -33,7 +33,7 @@ ASSUMPTIONS = ["pvm/ref/ofwire.py states the OpenFlow 1.0.0 layouts correctly",
                "field against an independent specification"]
 REQUIRED = ["objects", "layout_compared", "roundtrips", "table_dispatch",
             "action_lists", "stats_bodies", "nicira_objects",
-            "nx_layouts_checked"]
+            "nx_layouts_checked", "earlier_objects_rechecked"]
 TIMEOUT = {"quick": 900, "thorough": 7200}
 
 # wildcard bit constants (OpenFlow 1.0 spec)
@@ -96,6 +96,9 @@ def safe_len (ctx, obj, cname):
 
 
 # -- message ---------------------------------------------------------------
+
+_earlier = {}
+
 
 def check_message (ctx, m, rng):
   import pox.openflow.libopenflow_01 as of
@@ -173,6 +176,19 @@ def check_message (ctx, m, rng):
       ctx.fire(cname, "re-encoding differs", "at byte %d: %s vs %s" %
                (i, hexs(b2[max(0, i - 4):i + 12]), hexs(b[max(0, i - 4):i + 12])))
   ctx.rep.count("roundtrips")
+  # objects decoded earlier are still what they were (no state shared between
+  # instances of a message class, e.g. through a class-level list)
+  old = _earlier.get(cname)
+  if old is not None:
+    ob, oo = old
+    ctx.rep.count("earlier_objects_rechecked")
+    b3 = safe_pack(ctx, oo, cname)
+    if b3 is not None and b3 != ob:
+      i = first_diff(b3, ob)
+      ctx.fire(cname, "an object decoded earlier changed when another one was decoded",
+               "at byte %d: %s vs %s" % (i, hexs(b3[max(0, i - 4):i + 12]),
+                                         hexs(ob[max(0, i - 4):i + 12])))
+  if b2 is not None: _earlier[cname] = (b, o2)
   # dispatch through the table both connection classes use
   try:
     table = make_type_to_unpacker_table()
